@@ -378,7 +378,8 @@ def e2e_scenarios(rnd, count, big):
         scns.append({"chans": chans, "compress": rnd.random() < 0.4,
                      "rekey": rnd.choice(["none", "threshold", "threshold", "explicit_client", "explicit_server"]),
                      "rekey_bytes": rnd.choice([20000, 60000, 200000]), "rekey_packets": rnd.choice([8, 40, 1000]),
-                     "seed": rnd.randrange(1 << 30), "wrap_ids": rnd.random() < 0.5})
+                     "seed": rnd.randrange(1 << 30), "wrap_ids": rnd.random() < 0.5,
+                     "lazy": rnd.choice([0.0, 0.0, 0.1, 0.4])})
     return scns
 
 
@@ -446,8 +447,11 @@ def run_e2e(scn, watchdog=120.0):
 
         def reader(chan, ep, rnd, style, events, errs, on_progress=None):
             got = 0
+            lazy = scn.get("lazy", 0.0)
             try:
                 while True:
+                    if lazy and rnd.random() < lazy:         # a slow consumer: windows fill up, data queues
+                        time.sleep(rnd.random() * 0.004)
                     n = chunk_plan(rnd, 70000, style)[0]
                     t0 = stamp()
                     d = chan.recv_stderr(n) if ep == "err" else chan.recv(n)
